@@ -1,15 +1,16 @@
 """C01 configuration for bin/check."""
 PROP = dict(
     title='Block execution is deterministic across runs and nodes',
-    drivers=['TestC01Sites', 'TestC01PowerDiff', 'TestC06Mode', 'TestC09Alloc'],
+    drivers=['TestC01Sites', 'TestC01PowerDiff', 'TestC06Mode', 'TestC09Alloc', 'TestC01Replay'],
     coq_modules=['Model.Determinism'], case_type='c01_case', check_fn='c01_check', classes_fn='c01_classes',
     per_driver={
         'c06_mode': dict(coq_modules=['Model.OracleAgg', 'Model.Determinism'], case_type='c06_case', check_fn='c01_mode_check', classes_fn='c06_classes'),
         'c09_alloc': dict(coq_modules=['Model.Rewards', 'Model.Determinism'], case_type='c09_case', check_fn='c01_alloc_check', classes_fn='c09_classes'),
+        'c01_replay': dict(coq_modules=['Model.Determinism'], case_type='c01_replay_case', check_fn='c01_replay_check', classes_fn='c01_replay_classes'),
     },
-    rule='sites: go/packages+go/types scan of the consensus packages of the working tree (every range over a map, time.Now, math/rand, crypto/rand, os.Getenv, go statements, select) compared with the list of sites covered by a theorem or an off-consensus justification. powerdiff / mode / alloc: the real PowerDiff, WeightedMode and AllocateRewards are executed 8/16/4 times (thorough 32/64/16) per generated input in one process (Go re-randomises map iteration on every range) on inputs biased to equal-weight ties and several reporters; the set of distinct answers must be a singleton equal to the model; non-trivial = >= 2 map entries; distinct by input',
+    rule='sites: go/packages+go/types scan of the consensus packages of the working tree (every range over a map, time.Now, math/rand, crypto/rand, os.Getenv, go statements, select) compared with the list of sites covered by a theorem or an off-consensus justification. powerdiff / mode / alloc: the real PowerDiff, WeightedMode and AllocateRewards are executed 8/16/4 times (thorough 32/64/16) per generated input in one process (Go re-randomises map iteration on every range) on inputs biased to equal-weight ties and several reporters; the set of distinct answers must be a singleton equal to the model; non-trivial = >= 2 map entries; distinct by input. replay: 18 (thorough 600) generated histories (all-message, payout-directed and dispute-directed, 20 blocks) are each executed twice in one process on two fresh applications built from fixed keys; compared: the projection after every operation, a SHA-256 over every key/value of the 14 module stores, a SHA-256 over all emitted events; non-trivial = > 100 store entries and > 20 events',
     technique='Coq theorems: permutation invariance of every map-iterating function of the model (mode with fixed tie rule, reward allocation after sort, PowerDiff sum) + source scan for nondeterminism sites re-checked in Coq + repeated execution of the real functions',
-    level_text='Machine-checked: results of WeightedMode, AllocateRewards and PowerDiff do not depend on the map iteration order (for every permutation), ties are resolved by a fixed rule; every map-range / wall-clock / goroutine site found in the current source is covered. Go runtime randomisation itself is sampled by repeated execution, not proved.',
+    level_text='Machine-checked: results of WeightedMode, AllocateRewards and PowerDiff do not depend on the map iteration order (for every permutation), ties are resolved by a fixed rule; every map-range / wall-clock / goroutine site found in the current source is covered. Go runtime randomisation itself is sampled by repeated execution (of the three functions and of whole histories on two fresh application instances, comparing every module store and every event), not proved.',
     level_note='Partial by construction (DESIGN section 10): Go map randomisation, scheduler and IAVL commit hashing are sampled; collections iterate in key order (assumed); the scanner (go/packages) is trusted to enumerate sites; whole-history replay on two fresh apps is part of the C02 history driver when present.',
     assumptions=['cosmossdk.io/collections iterate in key order', 'ExtendVote is node-local by design (its output is an input of the next block)'],
     design_ref='5/C01',
